@@ -24,7 +24,8 @@ macro_rules
   | `(tactic| gv_alias $f $g) =>
     `(tactic| first
       | rfl
-      | (simp only [$f:ident, $g:ident]; split_ifs <;> rfl))
+      | (simp only [$f:ident, $g:ident]; split_ifs <;> rfl)
+      | (simp only [$f:ident, $g:ident, gv_alias] <;> first | rfl | (split_ifs <;> rfl)))
 
 /-- tower level ≥ 2: push the spec map through the generated body, then `ring` one level below -/
 syntax "gv_level " ident,+ : tactic
